@@ -17,6 +17,20 @@ def absStep (a : Abs) : Op → Abs
 
 def absRun (a : Abs) (ops : List Op) : Abs := ops.foldl absStep a
 
+/-- an assignment array a load accepts: one cluster id per spike (`assert self.spike_clusters.shape == (ns,)`,
+model.py l. 374 — a file of any other length makes `load_model` raise AssertionError), at least one spike (`np.max(uc)` of
+an empty array raises ValueError, l. 630), and ids that `astype(np.int32)` (l. 628) keeps (an id ≥ 2^31 wraps to a
+negative number: the load shows another id than the one saved) -/
+def AssignOK (ns : Nat) (sc : List Nat) : Prop :=
+  sc.length = ns ∧ sc ≠ [] ∧ ∀ c ∈ sc, c < 2 ^ 31
+
+/-- every `save_spike_clusters(sc)` of the history is given an array a later load accepts (`AssignOK`): what the
+supervisor passes — `save_spike_clusters` itself checks nothing and `np.save`s whatever it is given -/
+def SavesOK (ns : Nat) (ops : List Op) : Prop :=
+  ∀ op ∈ ops, match op with
+    | .saveClusters sc => AssignOK ns sc
+    | _ => True
+
 /-- histories in scope for the refinement theorem: only the model's own saves touch metadata
 (foreign files are covered separately), and field names are plain (not `cluster_id`) -/
 def OwnOps (ops : List Op) : Prop :=
